@@ -239,6 +239,26 @@ CHECKS = {
     ),
 }
 
+# additions made when the checks were strengthened after the second round of seeded changes (DESIGN.md §6.5)
+ADDENDA = {
+    "C01": " Functions are also obtained together with a gradient whose perturbations partly fail, and values with common offsets up to 1e8 and a small spread are generated (stddev tolerance relative to the spread).",
+    "C02": " Per-variable sampler assignments next to masks are generated, fixed columns of the perturbed variables must equal x, and histories that differ in the fixed variables only are included.",
+    "C03": " Merged-realization estimation is included for mean/no-filter.",
+    "C04": " Negative objective weights with a positive total are generated.",
+    "C07": " A second start() of the same plug-in instance on a changed problem must serve nothing from the first run (length <=2).",
+    "C08": " Narrow two-sided bands (5e-4 wide at magnitude 100) with test points inside them and option dicts that carry their own maxiter/maxfun are included.",
+    "C09": " Relative perturbation types and unbounded (also fixed) variables are generated; configurations rejected at validation are counted.",
+    "C10": " 1-3 samplers with per-variable assignment (unused samplers, variables without sampler), samplers that hand out the array they keep, and two consecutive evaluations are included.",
+    "C11": " Scales-only and offsets-only variable scalers and the split path (function, then gradient-only) are included.",
+    "C13": " Scales-only and offsets-only variable scalers are included.",
+    "C14": " SLSQP is run plain, with split_evaluations and speculative (functions and gradient in one evaluation).",
+    "C15": " A nested inner plan on its own OptimizerContext is included, and the outer step whose run contained the abort must itself report USER_ABORT.",
+    "C16": " An unrelated optimization may be executed from inside a callback of the run, and fresh-interpreter references use a different PYTHONHASHSEED (always for configurations with several QMC engines).",
+    "C18": " Inconsistent shapes include single-column coefficient matrices and non-broadcastable bound vectors, with and without scaler offsets.",
+    "C19": " Lookups include method names that themselves contain a slash (external/scipy/<method>).",
+    "C20": " Configurations started with run_step(variables=) are included, and stand-in optimizer processes that follow the protocol die after 1 or 2 exchanged messages (no-hang clause before the first evaluation).",
+}
+
 NOT_YET = "no check registered"
 
 
@@ -257,7 +277,7 @@ def main() -> None:
                 "evidence_file": f"evidence/{pid}.json",
                 "replay_cmd_template": f"./check {pid} --replay {{path}}",
                 "engine": "harness",
-                "level_claimed": {"category": cat, "text": text, "design_ref": ref},
+                "level_claimed": {"category": cat, "text": text + ADDENDA.get(pid, ""), "design_ref": ref},
                 "level_note": note,
                 "technique": tech,
             }
